@@ -244,7 +244,7 @@ def drive_pv(recipe):
 
 
 # ------------------------------------------------------------------ generators (seeded)
-WORDS = ["O1", "H2A", "C", "Uani", "calc", ".", "?", "x,y,z", "-x+1/2,y,-z", "P21/c", "R-3c:H", "d", "abc",
+WORDS = ["", "O1", "H2A", "C", "Uani", "calc", ".", "?", "x,y,z", "-x+1/2,y,-z", "P21/c", "R-3c:H", "d", "abc",
          "o'c", "a;b", "5'-end", "1a", "e5", "1.2.3", "12(3", "x(1)", "-", "+", "..", "1/2", "N#1", "a_b", "A\"b",
          "(3)", "1e", "dAtA", "Loop", "stop", "--1", "1.5()", "a(b)c", "x[1]", "{y}", "%", "~1", "v=1", "nan", "inf",
          "1_000", "0x10", "1e5x", "1.e", "e", "E1", "+-1", "1-2", "3/4", "1:2", "T", "none", "None", "True"]
